@@ -24,7 +24,7 @@ from mirsym.engine import Agg, PyVec, Str, Ref, Opaque, Unsupported, Panic, mkst
 
 LCRATES = ('ast', 'cst', 'parser', 'lexer', 'diagnostics', 'common_defs', 'compiler')
 ESC = {'"': 34, '\\': 92, 'b': 8, 'n': 10, 'f': 12, 'r': 13, 't': 9, '/': 47}      # the escapes of the lexer's Str regex and what they denote (JSON)
-UNI = ['0041', '00e9', '2192', '0001']
+UNI = ['0041', '00e9', '2192', '0001', '00E9', 'AbCd']
 
 def go_decode(ex, chars):
     """reference decoder of the *content* of a Go interpreted string literal -> code points, or None if it is not a legal literal"""
@@ -161,4 +161,6 @@ def _string_obs():
             Ob('O11.3-string-literal-2', 'string literal fidelity: 2 items', ob_string_literal, ('quick', 'thorough'), 3, dict(items=2)),
             Ob('O11.3-string-literal-3', 'string literal fidelity: 3 items', ob_string_literal, ('thorough',), 30, dict(items=3))]
 _old_obligations = obligations
-def obligations(): return _old_obligations() + _string_obs()
+def obligations():
+    from props import c11_lower
+    return _old_obligations() + _string_obs() + c11_lower.obligations()
